@@ -7,6 +7,10 @@ A check for property X reports the records in BAD_X; all checks share this pipel
 import os, time, json, subprocess, shutil, hashlib
 from vlib import *
 
+FOCUSED = ("prep", "claim", "aligned", "realloc", "fail", "scope")
+# the focused action mix that raises the density of the situations a property is about (in addition to the general mix)
+FOCUS_OF = {"C15": "prep", "C14": "claim", "C18": "aligned", "C13": "realloc", "C02": "realloc", "C16": "realloc", "C07": "fail",
+            "C03": "scope", "C05": "scope"}
 ARENA_PROPS = ["C01", "C02", "C03", "C05", "C07", "C10", "C12", "C13", "C14", "C15", "C16", "C18"]
 
 
@@ -23,7 +27,17 @@ def extract_behaviours(tlc_out, path, start_id=1):
     return n
 
 
-def simulate(cfg, num, depth, out_path, workers=4, timeout=900, start_id=1, seed_=None):
+def simulate(cfg, num, depth, out_path, workers=4, timeout=900, start_id=1, seed_=None, focus="general"):
+    if focus not in ("general", "c17", "c12"):
+        # a focused action mix: same configuration file with the Focus constant replaced
+        txt = open(os.path.join(SPEC, cfg)).read().replace('Focus = "general"', 'Focus = "%s"' % focus)
+        gen = ".gen_%s_%s_%d.cfg" % (cfg.replace(".cfg", ""), focus, os.getpid())
+        with open(os.path.join(SPEC, gen), "w") as f:
+            f.write(txt)
+        try:
+            return simulate(gen, num, depth, out_path, workers, timeout, start_id, seed_, "general")
+        finally:
+            os.unlink(os.path.join(SPEC, gen))
     r = tlc("MC_Arena", cfg, workers=workers, timeout=timeout, simulate=num, depth=depth, xmx="4g",
             seed_=seed_ if seed_ is not None else seed())
     if r.error:
@@ -162,7 +176,12 @@ def _arena_pipeline(tier, focus, variants, key):
     thorough = tier == "thorough"
     wd = workdir("arena-%s-%s" % (focus, key))
     bins = cargo_build("replay", features=["full"] if thorough else None)
-    # 1. model checking of the specification against the contract invariants
+    # 1. model checking of the specification against the contract invariants (shared by all focused mixes: done once,
+    #    in the pipeline with the general mix)
+    if focus in FOCUSED:
+        g = arena_pipeline(tier, "general", variants)
+        mc = g["mc"]
+        return _arena_pipeline_rest(tier, focus, variants, key, t0, thorough, wd, bins, mc, None)
     mc = tlc("MC_Arena", "MC_Arena_thorough.cfg" if thorough else "MC_Arena.cfg", workers=10,
              timeout=3000 if thorough else 900, xmx="12g")
     require_ok(mc, "MC_Arena")
@@ -170,10 +189,16 @@ def _arena_pipeline(tier, focus, variants, key):
     # this is the configuration on which TLC found the defect fixed by /repo 5e73d20)
     mc2 = tlc("MC_Arena", "MC_Arena_prepfail.cfg", workers=6, timeout=900, xmx="6g")
     require_ok(mc2, "MC_Arena_prepfail")
+    return _arena_pipeline_rest(tier, focus, variants, key, t0, thorough, wd, bins, mc, mc2)
+
+
+def _arena_pipeline_rest(tier, focus, variants, key, t0, thorough, wd, bins, mc, mc2):
     # 2. behaviours
     beh = os.path.join(wd, "beh.ndjson")
     nnum = (5000 if thorough else 500) if focus != "c17" else (1200 if thorough else 150)
-    nsim, sim = simulate("Sim_Arena_full.cfg" if thorough else "Sim_Arena.cfg", nnum, 45, beh, workers=6, timeout=2400)
+    if focus in FOCUSED:
+        nnum = 3000 if thorough else 300
+    nsim, sim = simulate("Sim_Arena_full.cfg" if thorough else "Sim_Arena.cfg", nnum, 45, beh, workers=6, timeout=2400, focus=focus)
     # 3. replay
     obs = os.path.join(wd, "obs.ndjson")
     stats, crashes = replay(bins["replay"], beh, obs, variants)
@@ -187,8 +212,9 @@ def _arena_pipeline(tier, focus, variants, key):
     counters = {k: tagged_int(results, k) for k in ("N_EXIT", "N_REALLOC", "N_NEWCHUNK", "N_RECLAIM", "N_FAIL", "N_CLAIMED_OP", "N_ALIGNED", "N_REUSE", "N_PREP", "N_COMMIT", "N_PARTS", "N_AGAIN", "N_TRYWITH_ERR", "N_VALUE")}
     shutil.rmtree(d, ignore_errors=True)
     mc.out = mc.out[-4000:]
-    mc.distinct += mc2.distinct
-    mc.generated += mc2.generated
+    if mc2 is not None:
+        mc.distinct += mc2.distinct
+        mc.generated += mc2.generated
     return {"wd": wd, "beh": beh, "obs": obs, "mc": mc, "nsim": nsim, "stats": stats, "crashes": crashes, "bad": bad,
             "drift": drift, "checked": checked, "counters": counters, "wall": time.time() - t0, "variants": variants}
 
@@ -208,14 +234,29 @@ def check_arena_property(pid, tier, focus="general"):
     t0 = time.time()
     out = Outcome(pid)
     P = arena_pipeline(tier, focus)
-    bad = P["bad"][pid]
-    recs = nth_lines(P["obs"], [g for (_, _, g) in bad][:300])
-    behs = behaviour_by_id(P["beh"], [r["b"] for r in recs.values()][:40])
-    for g, rec in sorted(recs.items()):
-        sig = violation_signature(pid, rec)
-        out.violation(sig, {"check": pid, "step": rec, "behaviour": behs.get(rec["b"]),
-                            "how": "harness/replay replays `behaviour` (a TLC-generated behaviour of spec/Arena.tla) on the real "
-                                   "allocator; `step` is the recorded observation on which the contract clause of ArenaObs.tla fails"})
+    pipes = [P]
+    if focus == "general" and pid in FOCUS_OF:
+        pipes.append(arena_pipeline(tier, FOCUS_OF[pid]))
+    for Q in pipes:
+        bad = Q["bad"][pid]
+        recs = nth_lines(Q["obs"], [g for (_, _, g) in bad][:300])
+        behs = behaviour_by_id(Q["beh"], [r["b"] for r in recs.values()][:40])
+        for g, rec in sorted(recs.items()):
+            sig = violation_signature(pid, rec)
+            out.violation(sig, {"check": pid, "step": rec, "behaviour": behs.get(rec["b"]),
+                                "how": "harness/replay replays `behaviour` (a TLC-generated behaviour of spec/Arena.tla) on the real "
+                                       "allocator; `step` is the recorded observation on which the contract clause of ArenaObs.tla fails"})
+    if len(pipes) > 1:
+        F = pipes[1]
+        P = dict(P)
+        P["crashes"] = P["crashes"] + F["crashes"]
+        P["drift"] = P["drift"] + F["drift"]
+        P["stats"] = {k: P["stats"][k] + F["stats"][k] for k in P["stats"]}
+        P["checked"] += F["checked"]
+        P["nsim"] += F["nsim"]
+        P["counters"] = {k: P["counters"][k] + F["counters"].get(k, 0) for k in P["counters"]}
+        P["wall"] += F["wall"]
+        P["focus_mix"] = FOCUS_OF[pid]
     # a crash of the process while replaying is an observation: memory safety (C01/C02) is gone
     if pid in ("C01", "C02", "C05"):
         for (bid, rc, last) in P["crashes"]:
@@ -255,7 +296,7 @@ def check_arena_property(pid, tier, focus="general"):
         "samples": samples,
         "steps_checked": P["checked"], "model_drift_steps": len(P["drift"]), "replayer_crashes": len(P["crashes"]),
         "behaviours_emitted": P["nsim"], "behaviours_skipped_not_compiled": P["stats"]["skipped"],
-        "entry_point_variants": P["variants"].split(","), "counters": P["counters"],
+        "entry_point_variants": P["variants"].split(","), "counters": P["counters"], "focused_action_mix": P.get("focus_mix", "none"),
         **extra_cov,
         "mc_depth": P["mc"].depth, "pipeline_wall_s": round(P["wall"], 1), "pipeline_result_reused_from_cache": P.get("cached", False),
         "explanation": "TLC model-checks Arena.tla against the contract invariants (states/transitions), emits random behaviours "
